@@ -19,6 +19,13 @@ ATTRIBUTE ops (the model ignores attributes: registries are the only source of t
 ["setattr", o, [2, n] | [kind, pos], how, key, val] edits node data of an ordinary / F- / S-node: how = "set" (G.nodes[x][key] = val),
 "del" (G.nodes[x].pop(key, None)), "nxset" (nx.set_node_attributes); keys may be str, int or tuple;
 ["gattr", o, key, val] = G.graph[key] = val for keys other than the two registries.  val is never a str (ints, lists -> tuples, None).
+LABEL-VALUE ops: ["twin", o, n, cs] adds the ordinary node n in TWINS (100.. : labels EQUAL to generated names but of another type:
+('F', 0.0), ('F', True), ('S', 1.0), ('F', np.int64(0)), ('S', 0.0); 104.. : near misses that are NOT equal: ('F', '0'), ('F', 0, 0), 'F0')
+and the edges n -> c for c in cs.  Equal labels are the same name: when a node of that name exists the op is skipped altogether (both
+sides), otherwise the ordinary node occupies the name and a later add_f_node / add_s_node must avoid it (model: occ).
+MALFORMED ops: ["bad", o, which, i] calls one mutating API with the i-th malformed argument of BAD[which] (None, a scalar where a pair /
+an iterable is expected, an unhashable inside, an absent node, None as a node, ...).  Expected: it raises and the FULL observable state
+of every live object is unchanged (the model runs a no-op and the expected status is "raised").
 case["obs"] = "all" (default: every live object is observed after every op, so each op runs on objects whose f_nodes /
 s_nodes / intervention_sets / domain_ids / children were just queried -- a cached property would go stale) or "last"
 (nothing is queried before the final op: statuses are compared at every step, observables only at the end).
@@ -37,7 +44,10 @@ MODE = 1 if os.environ.get("C20_ASIS") else 0
 FIELDS = ["cls", "nodes", "F-registry", "S-registry", "unregistered-aug-nodes", "edges", "domains",
           "intervention_sets", "domain_ids", "f_nodes/s_nodes/non_augmented_nodes/augmented_nodes"]
 OPN = {"new": 0, "copy": 1, "addf": 2, "addfs": 3, "adds": 4, "rm": 5, "rmfrom": 6, "node": 7, "edge": 8, "addfa": 2, "addfall": 9,
-       "nodeattr": 7, "setattr": 6, "gattr": 6}
+       "nodeattr": 7, "setattr": 6, "gattr": 6, "twin": 10, "bad": 6}
+# ordinary node id -> (kind, index) of the generated name its label is EQUAL to, or None for a near miss (labels: _twin_label)
+TWINS = {100: (0, 0), 101: (0, 1), 102: (1, 1), 103: (0, 0), 107: (1, 0), 104: None, 105: None, 106: None}
+BAD = {"adds_dom": 4, "adds_ch": 7, "addf": 7, "addfs": 3, "rm": 3, "rmfrom": 3, "allsn": 3}      # number of malformed variants
 LIB_KEYS = ["domain_ids", "S-nodes", "F-nodes", "targets", "domain", "domains", "invariant_domains"]
 
 RULE = ("histories over 1-3 live objects (AugmentedGraph and AugmentedPAG, also mixed), ordinary nodes 0..2 (+3 via add_node): "
@@ -54,7 +64,14 @@ EXHAUSTIVE = {"quick": "all histories of length <=3 over the reduced alphabet (b
               "thorough": "all histories of length <=4 over the reduced alphabet (both classes; length 4 with at most 2 live objects)"}
 TRUSTED = ["networkx node / adjacency dict semantics and MixedEdgeGraph layer bookkeeping taken at face value",
            "registry insertion order (dict order) is used to refer to augmented nodes by position"]
-ASSUMPTIONS = ["ordinary nodes are not named like augmented nodes (('F', i) / ('S', i))",
+ASSUMPTIONS = ["ordinary labels EQUAL to a generated name (('F', 0.0), ('F', True), ('F', np.int64(0)), ('S', 1.0)) are the same name: the "
+               "twin stream checks that a new augmented node avoids them; the model therefore uses the code's own probe (start at "
+               "len(registry), first index not a node), proved fresh",
+               "malformed-argument stream: add_s_node / add_f_node / add_f_nodes_from / remove_node / remove_nodes_from / "
+               "add_all_snode_combinations with None, scalars, unhashables, absent nodes, None as a node: must raise with every "
+               "observable of every live object unchanged. Wrong-ARITY domain_ids ((1,2,3), (7,), 'ab') are accepted by HEAD without "
+               "a raise (G.domain_ids then fails on unpacking for arity != 2); not modelled, not generated",
+               "ordinary nodes are not named like augmented nodes (('F', i) / ('S', i))",
                "only directed edges among ordinary nodes, never reversed (u < v), so no PAG/ADMG edge guard fires",
                "set_f_node re-targeting and removal of target nodes are outside the claim (property text) and never generated",
                "add_f_node with the default domain and require_unique=True"]
@@ -100,6 +117,28 @@ def alphabet_attr(nobj, maxobj, cls, nx=False):
                 ["setattr", o, [1, 0], "del", "domain_ids", None], ["setattr", o, [1, 0], "nxset", "domain_ids", [7, 8]],
                 ["setattr", o, [0, 0], "set", "domain_ids", [1, 2]], ["gattr", o, "domain_ids", [9, 9]]]
     return ops
+
+
+def alphabet_twin(nobj, maxobj, cls, nx=False):
+    """reduced alphabet around ordinary nodes whose labels equal (or nearly equal) generated names"""
+    ops = []
+    if nobj < maxobj:
+        for o in range(nobj):
+            ops.append(["copy", o])
+    for o in range(nobj):
+        ops += [["addf", o, [0]], ["addf", o, [1]], ["adds", o, 1, 2, [0]], ["adds", o, 2, 3, []], ["rm", o, 0, 0], ["rm", o, 1, 0],
+                ["twin", o, 100, [1]], ["twin", o, 101, []], ["twin", o, 102, [0]], ["twin", o, 103, []], ["twin", o, 107, [2]],
+                ["twin", o, 104, [1]], ["twin", o, 105, []], ["twin", o, 106, []]]
+    return ops
+
+
+def bad_histories(cls):
+    base = [["addf", 0, [0]], ["adds", 0, 1, 2, [1]], ["addf", 0, [1]]]
+    prefixes = [[]] + [[a] for a in base] + [[a, b] for a in base for b in base if a != b]
+    for pre in prefixes:
+        for which, n in BAD.items():
+            for i in range(n):
+                yield [["new", cls, [0, 1, 2]]] + pre + [["bad", 0, which, i], ["copy", 0], ["addf", 1, [2]], ["adds", 0, 3, 4, [2]]]
 
 
 def alphabet(nobj, maxobj, cls, nx=False):
@@ -220,6 +259,13 @@ def random_history(rng, length):
             ops.append(["rmfrom", o, items, ak])
             for k, _ in items:
                 nreg[o][k] = max(0, nreg[o][k] - 1)
+        elif r < 0.865:
+            if rng.random() < 0.5:
+                which = rng.choice(sorted(BAD))
+                ops.append(["bad", o, which, rng.randrange(BAD[which])])
+            else:
+                n = rng.choice(sorted(TWINS))
+                ops.append(["twin", o, n, rng.sample([0, 1, 2], rng.choice([0, 0, 1]))])
         elif r < 0.885:
             key = rng.choice(LIB_KEYS + ["domain_ids", "domain_ids", 5, ["a", 1]])
             val = rng.choice([[1, 2], [3, 4], None, 7, []])
@@ -261,6 +307,12 @@ def gen_cases(tier, rng):
             for h in histories(n, cls, maxobj=3, alpha=alphabet_attr):
                 if any(op[0] in ("nodeattr", "setattr", "gattr") for op in h) and any(op[0] == "copy" for op in h):
                     yield {"kind": "exh%d-attrs" % n, "ops": h}
+        for n in range(2, 4 if tier == "quick" else 5):
+            for h in histories(n, cls, maxobj=2, alpha=alphabet_twin):
+                if any(op[0] == "twin" for op in h) and any(op[0] in ("addf", "adds") for op in h):
+                    yield {"kind": "exh%d-twins" % n, "ops": h}
+        for h in bad_histories(cls):
+            yield {"kind": "malformed", "ops": h}
     if tier != "quick":
         for cls in (0, 1):
             for h in histories(4, cls, maxobj=2):
@@ -283,7 +335,10 @@ def enc_op(op, nops):
     t = OPN[op[0]]
     if op[0] == "nodeattr" or (op[0] == "setattr" and op[2][0] == 2):
         return [7, op[1], op[2] if op[0] == "nodeattr" else op[2][1]]      # model: plain add_node (no-op when present)
-    if op[0] in ("setattr", "gattr"):
+    if op[0] == "twin":
+        tw = TWINS[op[2]]
+        return [10, op[1], op[2], tw[0], tw[1], op[3]] if tw else [3 + 5, op[1], op[2], op[3][0]] if op[3] else [7, op[1], op[2]]
+    if op[0] in ("setattr", "gattr", "bad"):
         return [6, op[1], []]                                              # model: no-op (remove_nodes_from([]))
     body = list(op[1:-1]) if isinstance(op[-1], str) else list(op[1:])
     if op[0] == "rmfrom" and _argkind(op) in ("keysF", "keysS"):   # every position the registry can have
@@ -306,7 +361,11 @@ def _derived(obj):
 
 
 def decode(case, v):
-    return [[step[0], [_derived(o) for o in step[1]], 0] for step in v]
+    out = [[step[0], [_derived(o) for o in step[1]], 0] for step in v]
+    for i, op in enumerate(case["ops"]):
+        if op[0] == "bad" and i < len(out) and out[i][0] == 0:
+            out[i][0] = 1            # expected: raised, nothing changed
+    return out
 
 
 # ------------------------------------------------------------------ implementation side
@@ -368,9 +427,23 @@ def run_impl(case):
     def inv(x):      # KeyError for anything that is not an ordinary label (identity labels included)
         return table[x]
     objs, trace = [], []
+    twins = []       # per object: twin label -> ordinary id (equal labels are per-object: another object may have the real ('F', 0))
+
+    def inv_for(i):
+        tw = twins[i]
+
+        def inv_i(x):
+            try:
+                if x in tw:
+                    return tw[x]
+            except TypeError:
+                pass
+            return table[x]
+        return inv_i
 
     def aug_count(G):
-        return len(G.nodes) - sum(1 for n in G.nodes if _is_ord(inv, n))
+        inv_i = inv_for(objs.index(G))
+        return len(G.nodes) - sum(1 for n in G.nodes if _is_ord(inv_i, n))
 
     def as_kind(items, kind, G=None):
         items = list(items)
@@ -430,12 +503,29 @@ def run_impl(case):
                     G = (am.AugmentedGraph, am.AugmentedPAG)[op[1]]()
                     G.add_nodes_from([lab(v) for v in op[2]])
                 objs.append(G)
+                twins.append({})
             elif op[1] >= len(objs):
                 st = 3
             else:
                 G = objs[op[1]]
                 if t == "copy":
                     objs.append(G.copy())
+                    twins.append(dict(twins[op[1]]))
+                elif t == "twin":
+                    x = _twin_label(op[2])
+                    if TWINS[op[2]] is None:
+                        table[x] = op[2]
+                    if TWINS[op[2]] is None or x not in G.nodes:       # equal labels: a node of that name exists -> skipped
+                        if TWINS[op[2]] is not None:
+                            twins[op[1]][x] = op[2]
+                        G.add_node(x)
+                        for c in op[3]:
+                            G.add_edge(x, lab(c), G.directed_edge_name)
+                elif t == "bad":
+                    try:
+                        _call_bad(G, op[2], op[3], lab)
+                    except (RuntimeError, TypeError, ValueError, nx.NetworkXError):
+                        st = 1
                 elif t in ("addf", "addfs", "adds", "addfa", "addfall"):
                     before = 0 if last_only else aug_count(G)
                     want = 1
@@ -500,8 +590,34 @@ def run_impl(case):
             st = 2
         if sources and sources_touched():
             reused = 2
-        trace.append([st, None if quiet else [_render(G, inv) for G in objs], reused])
+        trace.append([st, None if quiet else [_render(G, inv_for(i)) for i, G in enumerate(objs)], reused])
     return trace
+
+
+def _twin_label(n):
+    import numpy as np
+    return {100: ("F", 0.0), 101: ("F", True), 102: ("S", 1.0), 103: ("F", np.int64(0)), 107: ("S", 0.0),
+            104: ("F", "0"), 105: ("F", 0, 0), 106: "F0"}[n]
+
+
+def _call_bad(G, which, i, lab):
+    from pywhy_graphs.algorithms.multidomain import add_all_snode_combinations
+    a, b = lab(0), lab(1)
+    if which == "adds_dom":
+        G.add_s_node([3, None, ([1], 2), (5, [1])][i], [a])
+    elif which == "adds_ch":
+        G.add_s_node((5, 6), [None, 0, [[0]], [a, [1]], "ab", [None], [a, None]][i])
+    elif which == "addf":
+        G.add_f_node([None, 1, [[1]], [a, [2]], [lab(99)], [None], "ab"][i])
+    elif which == "addfs":
+        G.add_f_nodes_from([[None, [b]], None, [[lab(99)], [b]]][i])
+    elif which == "rm":
+        G.remove_node([None, [1], lab(99)][i])
+    elif which == "rmfrom":
+        keys = list(G.graph["F-nodes"]) + list(G.graph["S-nodes"])
+        G.remove_nodes_from([None, [[1]], keys[:1] + [[1]]][i])
+    elif which == "allsn":
+        add_all_snode_combinations(G, [None, "2", 2.5][i])
 
 
 def _val(v):
